@@ -25,7 +25,7 @@ Theorem C06_offline :
     off_ok p w n ->
     eval_off AR (pk_impl io sem) p w n = tab (rho AR (pk_spec io sem) p w n) n.
 Proof.
-  intros VS AR io sem p w n (H1 & H2 & H3 & H4).
+  intros VS AR io sem p w n (H1 & H2 & H4).
   rewrite eval_off_correct by assumption. apply tab_ext. intros t _.
   apply rho_pk_ext. apply pk_impl_spec.
 Qed.
